@@ -510,6 +510,44 @@ def chkC10 (ln : Line) (_toks : List Tok) (calls : List (String × Nat)) (fin : 
     else none
   else none
 
+/-- judge one executed schedule: trace conformance, outcomes against the model, property oracle -/
+def judgeRun (ln : Line) (toks0 : List Tok) (calls : List (String × Nat)) (fin : Fin) : Verdict :=
+  let toks := normalize toks0.length false toks0
+  match runTrace toks.length (init ln.opens) toks 0 0 false with
+  | .rejected i tok s => .diff s!"trace-rejected at {i} {tok}: the model has no such step (st {stCode s.st} wg {s.wg} kWait {s.kWait})"
+  | .unknown i tok => .diff s!"trace-unknown-token at {i} {tok}"
+  | .obsMismatch i tok s => .diff s!"state-observed at {i} {tok} but model state is {stCode s.st}"
+  | .effOutside i tok => .viol s!"C10:cleanup-overlaps-run at {i} {tok}: processing state touched outside the core loop while a run is alive"
+  | .ok s n bad =>
+    -- outcomes: every call's return value against its own log, final observations against the model
+    match calls.find? (fun c => match expectedRet c.1 toks with | some v => v != c.2 | none => false) with
+    | some c => .diff s!"call-result {c.1} returned {c.2} but its trace says {(expectedRet c.1 toks).getD 9}"
+    | none =>
+      match chkC10 ln toks calls fin s bad with
+      | some v => .viol v
+      | none =>
+        if fin.st != stCode s.st then .diff s!"final-state impl {fin.st} model {stCode s.st}"
+        else if fin.wr != (if s.writing then 1 else 0) then .diff s!"final-writing impl {fin.wr} model {s.writing}"
+        else if fin.res != (if s.res then 1 else 0) then .diff s!"final-resources impl {fin.res} model {s.res}"
+        else if !s.res && fin.go != aliveL s + aliveP s then .diff s!"final-goroutines impl {fin.go} model {aliveL s + aliveP s}"
+        else
+          let nK := (calls.filter fun c => roleLetter c.1 == "K").length
+          let nR := (calls.filter fun c => roleLetter c.1 == "R").length
+          let tags := [ln.kind, ln.sched] ++
+            (if nK ≥ 2 then ["multiStop"] else []) ++
+            (if nR ≥ 2 then ["multiCaller"] else []) ++
+            (if countSite toks "loop.gotError" > 0 then ["selfEnd"] else []) ++
+            (if countSite toks "start.runStarted" ≥ 2 then ["restart"] else []) ++
+            (if countSite toks "stop.alreadyStopping" > 0 then ["stopWhileStopping"] else []) ++
+            (if countSite toks "stop.notActive" > 0 then ["stopWhenInactive"] else []) ++
+            (if countSite toks "note.writingOn" > 0 then ["writing"] else []) ++
+            (if countSite toks "rpc.sourceGone" > 0 then ["requestAfterEnd"] else []) ++
+            (if countSite toks "rpc.notActive" > 0 then ["requestNotActive"] else []) ++
+            (if countSite toks "loop.gotRequest" > 0 then ["request"] else []) ++
+            (if ln.sched == "rnd" || ln.sched == "stopAt" || ln.sched == "reuse" || ln.sched == "timing" then ["gated"] else []) ++
+            (if n > 60 then ["long"] else [])
+          .ok tags
+
 def runLine (ts : List String) : Verdict :=
   match P.run parseLine ts with
   | .error e => .bad e
@@ -520,36 +558,6 @@ def runLine (ts : List String) : Verdict :=
         .viol "C10:stop-on-starting-panic Stop called while the source is Starting panics (server exits)"
       else .viol s!"C10:panic-{cls} the life-cycle calls crashed the process"
     | .hang => .viol "C10:hang the case did not finish (watchdog)"
-    | .run toks0 calls fin =>
-      let toks := normalize toks0.length false toks0
-      match runTrace toks.length (init ln.opens) toks 0 0 false with
-      | .rejected i tok s => .diff s!"trace-rejected at {i} {tok}: the model has no such step (st {stCode s.st} wg {s.wg} kWait {s.kWait})"
-      | .unknown i tok => .diff s!"trace-unknown-token at {i} {tok}"
-      | .obsMismatch i tok s => .diff s!"state-observed at {i} {tok} but model state is {stCode s.st}"
-      | .effOutside i tok => .viol s!"C10:cleanup-overlaps-run at {i} {tok}: processing state touched outside the core loop while a run is alive"
-      | .ok s n bad =>
-        -- outcomes: every call's return value against its own log, final observations against the model
-        match calls.find? (fun c => match expectedRet c.1 toks with | some v => v != c.2 | none => false) with
-        | some c => .diff s!"call-result {c.1} returned {c.2} but its trace says {(expectedRet c.1 toks).getD 9}"
-        | none =>
-          match chkC10 ln toks calls fin s bad with
-          | some v => .viol v
-          | none =>
-            if fin.st != stCode s.st then .diff s!"final-state impl {fin.st} model {stCode s.st}"
-            else if fin.wr != (if s.writing then 1 else 0) then .diff s!"final-writing impl {fin.wr} model {s.writing}"
-            else if fin.res != (if s.res then 1 else 0) then .diff s!"final-resources impl {fin.res} model {s.res}"
-            else if !s.res && fin.go != aliveL s + aliveP s then .diff s!"final-goroutines impl {fin.go} model {aliveL s + aliveP s}"
-            else
-              let nK := (calls.filter fun c => roleLetter c.1 == "K").length
-              let tags := [ln.kind, ln.sched] ++
-                (if nK ≥ 2 then ["multiStop"] else []) ++
-                (if countSite toks "loop.gotError" > 0 then ["selfEnd"] else []) ++
-                (if countSite toks "start.runStarted" ≥ 2 then ["restart"] else []) ++
-                (if countSite toks "stop.alreadyStopping" > 0 then ["stopWhileStopping"] else []) ++
-                (if countSite toks "stop.notActive" > 0 then ["stopWhenInactive"] else []) ++
-                (if countSite toks "note.writingOn" > 0 then ["writing"] else []) ++
-                (if ln.sched == "rnd" || ln.sched == "stopAt" || ln.sched == "reuse" then ["gated"] else []) ++
-                (if n > 60 then ["long"] else [])
-              .ok tags
+    | .run toks0 calls fin => judgeRun ln toks0 calls fin
 
 end DastardV.C10
